@@ -8,9 +8,11 @@ open Verify Stack
 
 variable {H : Type}
 
-/-- one heap operation of the machine other than the creation of a continuation object -/
+/-- one heap operation of the machine other than the creation of a continuation object. `setAt`
+    (`*heap.get_at_index_mut(ptr) = v`, a MOV / MOVIMM to a `Ptr` destination) is not among them: the
+    bytecode verifier rejects such a destination (`Verify.dstOk`) — it would overwrite whatever the cell
+    holds, the bytecode of a lambda included. -/
 inductive HeapStep (ops : HeapOps H) : H → H → Prop
-  | setAt (h : H) (p : Nat) (v : VCell) : HeapStep ops h (ops.setAt h p v)
   | put (h : H) (v : VCell) : HeapStep ops h (ops.put h v).1
   | maybePut (h : H) (v : VCell) : HeapStep ops h (ops.maybePut h v).1
   | globPut (h : H) (n : Nat) (v : VCell) : HeapStep ops h (ops.globPut h n v)
@@ -179,10 +181,11 @@ theorem loadOperand_ok {s s1 : St H} {v : VCell} (h : loadOperand ops s = .ok (v
   | err e => rw [hr] at h; cases h
   | panic m => rw [hr] at h; cases h
 
-/-- a store through any operand but a `BasePointerOffset` leaves the stack alone -/
+/-- a store through an operand the verifier accepts as a destination (`acc`, a global slot, an
+    environment slot) leaves the stack alone, and is a heap step -/
 theorem storeOperand_ok {cl : CodeLaws ops} {s s1 : St H} {v : VCell} (hi : cl.HInv s.heap)
     (h : storeOperand ops s v = .ok s1)
-    (hnb : notBpOffset (ops.fetch s.heap s.ipL s.ipO) = true) :
+    (hnb : dstOk (ops.fetch s.heap s.ipL s.ipO) = true) :
     s1.stack = s.stack ∧ s1.bp = s.bp ∧ s1.ipL = s.ipL ∧ s1.ipO = s.ipO + 1 ∧ Ext cl s.heap s1.heap := by
   unfold storeOperand at h
   simp only [Bind.bind] at h
@@ -196,8 +199,8 @@ theorem storeOperand_ok {cl : CodeLaws ops} {s s1 : St H} {v : VCell} (hi : cl.H
     rw [hf] at hnb
     split at h
     · cases h; exact ⟨rfl, rfl, rfl, rfl, Ext.refl hi⟩
-    · cases h; exact ⟨rfl, rfl, rfl, rfl, Ext.step hi (.setAt _ _ _)⟩
-    · simp [notBpOffset] at hnb
+    · simp [dstOk] at hnb
+    · simp [dstOk] at hnb
     · cases h; exact ⟨rfl, rfl, rfl, rfl, Ext.step hi (.globPut _ _ _)⟩
     · split at h
       · cases h
